@@ -46,6 +46,7 @@ type Run struct {
 	start    time.Time
 	selftest []map[string]any
 	evDir    string
+	exhaustive bool
 }
 
 func newRun(prop, tier string, seed int) *Run {
@@ -183,20 +184,18 @@ func (r *Run) Finish(verifDir string, cmd string) int {
 		fns = append(fns, f)
 	}
 	sort.Strings(fns)
-	var can []string
-	for c := range r.canaries {
-		can = append(can, c)
-	}
-	sort.Strings(can)
 	samples := r.samples
-	if len(samples) == 0 {
-		for _, v := range r.verdicts {
-			if len(samples) >= 8 {
-				break
-			}
-			if v.Status == "pass" || v.Status == "known" || v.Status == "violation" {
-				samples = append(samples, map[string]string{"obligation": v.Key, "status": v.Status, "at": v.Pos})
-			}
+	byRule := map[string]map[string]int{}
+	seenRule := map[string]bool{}
+	for _, v := range r.verdicts {
+		if byRule[v.Rule] == nil {
+			byRule[v.Rule] = map[string]int{}
+		}
+		byRule[v.Rule][v.Status]++
+		// one sample obligation per rule, so that a reader sees what each rule's obligations look like
+		if !seenRule[v.Rule] && len(samples) < 24 && (v.Status == "pass" || v.Status == "known" || v.Status == "violation") {
+			seenRule[v.Rule] = true
+			samples = append(samples, map[string]string{"rule": v.Rule, "obligation": v.Key, "status": v.Status, "at": v.Pos})
 		}
 	}
 	if len(samples) == 0 {
@@ -219,10 +218,11 @@ func (r *Run) Finish(verifDir string, cmd string) int {
 		"functions_analysed":  fns,
 		"paths_enumerated":    r.paths,
 		"call_sites":          r.sites,
-		"canaries_fired":      can,
 		"known_findings":      nknown,
 		"undecided":           nund,
-		"exhaustive":          true,
+		"exhaustive":          r.exhaustive,
+		"exhaustive_scope":    "every feasible control-flow path of the analysed roots after inlining module callees (loops unrolled k=1, thorough k=2; path cap 20000 turns into undecided), every matching construct of the type-checked production code for structural rules",
+		"by_rule":             byRule,
 	}
 	for k, v := range r.extra {
 		cov[k] = v
